@@ -1047,7 +1047,9 @@ func (sc *c17Scn) memOp() {
 	default:
 		rt = c17Pool[r.intn(3)]
 	}
-	pid := uint32(r.pick(0, 0, 0, 1, 2))
+	// path ids over the whole 32-bit range, in pairs that collide when (AS, path id) is packed or
+	// narrowed: (65001, 1) / (65000, 65537), ids 2^16 apart, 2^31, 2^32-1
+	pid := uint32(r.pick(0, 0, 0, 1, 2, 1, 2, 65536, 65537, 65538, 1<<31, 1<<32-1))
 	wd := r.chance(40)
 	plen := 0
 	if rt != nil && r.chance(8) {
